@@ -85,10 +85,20 @@ pub(crate) enum DatagramPipeHalves {
     ),
 }
 
+/// The kind of datagrams a multiplexer carries
+#[derive(Debug, Clone, Copy, PartialEq, Eq)]
+pub(crate) enum DatagramProtocol {
+    Udp,
+    Icmp,
+}
+
 /// An abstract interface for a datagram multiplexer open request implementation
 pub(crate) trait PendingDatagramMultiplexerRequest:
     StreamId + PendingRequest<NextState = DatagramPipeHalves> + Send
 {
+    /// Get the kind of the requested multiplexer
+    fn protocol(&self) -> DatagramProtocol;
+
     /// Get the address of a VPN client made the connection request
     fn client_address(&self) -> io::Result<IpAddr>;
 
